@@ -10,7 +10,7 @@
 import Ldap3V.Driver.Util
 import Ldap3V.Model.Codecs
 import Ldap3V.Spec.Codecs
-namespace Ldap3V.Driver
+namespace Ldap3V.Driver.CodecsD
 open Ldap3V Ldap3V.Codecs
 
 def optHex (s : String) : Option (Option Bytes) :=
@@ -211,4 +211,8 @@ def handleCodecs (cmd arg : String) : Option String :=
     some (((optHex rest).bind (specDec name)).getD bad)
   | _ => none
 
+end Ldap3V.Driver.CodecsD
+
+namespace Ldap3V.Driver
+def handleCodecs := CodecsD.handleCodecs
 end Ldap3V.Driver
